@@ -43,6 +43,10 @@ def run(pid, tier):
     step = 1 if len(emits) < 20000 else 7
     for e in emits[::step]:
         cases.append(dict(e, kind='db', desc=True))
+        # the job-level wrapper over the same neighbour lists: every point becomes a job of some shape (with / without locations)
+        SHAPES = ['single', 'single-noloc', 'multi', 'multi-mixed', 'multi-noloc', 'single', 'multi-mixed']
+        k = len(cases)
+        cases.append(dict(e, kind='jobdb', shapes=[SHAPES[(k + p * 3) % len(SHAPES)] for p in range(len(e['nb']))]))
     fa, fr = os.path.join(d, 'cases.ndjson'), os.path.join(d, 'results.ndjson')
     common.write_ndjson(fa, cases)
     # 3. the real code
@@ -81,6 +85,9 @@ def run(pid, tier):
     c = copy.deepcopy(g); c['act']['clusters'][0] = sorted(c['in']['order']); cans.append((c, 'DbGrown'))
     g = first(lambda r: r['kind'] == 'db' and len(r['act']['clusters']) >= 1)
     c = copy.deepcopy(g); c['act']['clusters'] = []; cans.append((c, 'DbCoreClustered'))
+    jg = first(lambda r: r['kind'] == 'jobdb' and len(r['act']['clusters']) >= 1 and any(sh in ('single-noloc', 'multi-noloc') for sh in r['in']['shapes']))
+    c = copy.deepcopy(jg); c['act']['clusters'] = []; cans.append((c, 'JobDbCoreClustered'))
+    c = copy.deepcopy(jg); c['act']['clusters'][0] = sorted(set(c['act']['clusters'][0]) | {1 + next(i for i, sh in enumerate(c['in']['shapes']) if sh in ('single-noloc', 'multi-noloc'))}); cans.append((c, 'JobDbDisjoint'))
     k = first(lambda r: r['kind'] == 'km' and len(r['act']['clusters']) >= 2 and len(r['act']['clusters'][0]['members']) >= 2
               and any(r['in']['d'][p - 1][r['act']['clusters'][0]['medoid'] - 1] < r['in']['d'][p - 1][r['act']['clusters'][1]['medoid'] - 1] for p in r['act']['clusters'][0]['members']))
     c = copy.deepcopy(k); c['act']['clusters'][0]['members'].pop(); cans.append((c, 'KmPartition'))
